@@ -35,6 +35,7 @@ LEVEL_TEXT = (
     "grid-ufunc arity/positions) are interpreted abstractly through the real call chain and must raise on every path while the corresponding valid request "
     "returns. This decides presence, condition and placement of each guard for opaque data and names; it samples each class by construction of the "
     "request, not all members of the class on all layouts."
+    " Refusals include metric registration for an unknown axis, the impossible shift on the second of two cumsum axes, falsy unknown words, NaN bin edges, and position words in signatures and annotations."
 )
 LEVEL_NOTE = "Trusted: abstract evaluator's exception model for Python containers. Each class is represented by a small family of requests (listed in the evidence)."
 
